@@ -48,10 +48,9 @@ def workloads(tier):
         "hamiltonian": {"driver": "HamiltonianCanonical", "T": 500.0, "cycles": 2, "atoms": {"kind": "gas", "n": 3, "edge": 6.0, "pbc": False, "seed": 5, "extras": ["masses", "momenta"]}, "calc": {"kind": "harmonic", "k": 1.5, "q": 0.5}, "table": [{"name": "h", "move": {"t": "H", "dt": 2.5, "steps": 6}}, {"name": "d", "move": D()}]},
         "isobaric": {"driver": "Isobaric", "T": 800.0, "P": 0.01, "cycles": 3, "atoms": {**gas, "triclinic": True}, "calc": {"kind": "soft"}, "table": [{"name": "c", "move": {"t": "C", "op": {"t": "Aniso", "mv": 0.05, "mask": mask}, "scale": False}}, {"name": "i", "move": {"t": "C", "op": {"t": "Iso", "mv": 0.04}}}, {"name": "d", "move": D()}]},
         "isotension": {"driver": "Isotension", "T": 800.0, "P": 0.01, "S": [[0.01, 0.002, 0], [0.002, 0.0, 0], [0, 0, -0.01]], "cycles": 3, "atoms": gas, "calc": {"kind": "soft"}, "table": [{"name": "c", "move": {"t": "C", "op": {"t": "Shape", "mv": 0.05}}}, {"name": "cd", "move": {"t": "+", "parts": [{"t": "C", "op": {"t": "Iso", "mv": 0.03}}, D("Box")]}, "criteria": "isotension"}, {"name": "d", "move": D("Box")}]},
-        "grand-atomic": {"driver": "GrandCanonical", "T": 1500.0, "mu": -0.05, "cycles": 3, "species": 1, "atoms": gas, "calc": {"kind": "soft"}, "table": [{"name": "x", "move": {"t": "E", "bias": 0.6}}, {"name": "d", "move": D()}]},
+        "grand-atomic": {"driver": "GrandCanonical", "T": 1500.0, "mu": -0.05, "cycles": 3, "species": 1, "atoms": gas, "calc": {"kind": "soft"}, "table": [{"name": "x", "move": {"t": "E", "bias": 0.6}}, {"name": "d", "move": D(labelmod="gap", default_label=0)}, {"name": "b", "move": D("Box", default_label=-1)}]},
         "grand-molecular": {"driver": "GrandCanonical", "T": 2500.0, "mu": -0.02, "cycles": 3, "species": 2, "atoms": mols, "calc": {"kind": "soft"}, "table": [{"name": "x", "move": {"t": "E", "op": {"t": "TranslationRotation"}, "labelmod": "rev"}}, {"name": "d", "move": {"t": "D", "op": {"t": "TranslationRotation"}}}, {"name": "r", "move": {"t": "D", "op": {"t": "Rotation"}, "labelmod": "someneg"}}]},
         "grand-composite": {"driver": "GrandCanonical", "T": 2500.0, "mu": 0.05, "cycles": 2, "species": 3, "atoms": mols3, "calc": {"kind": "soft"}, "table": [{"name": "x", "move": {"t": "E", "op": {"t": "TranslationRotation"}, "id": "e0"}}, {"name": "xx", "move": {"t": "*", "part": {"t": "E", "op": {"t": "TranslationRotation"}, "bias": 0.7}, "n": 2, "attrs": {"bias_towards_insert": 0.8}}, "criteria": "random:0.5"}, {"name": "dx", "move": {"t": "+", "parts": [D(), {"t": "E", "op": {"t": "TranslationRotation"}}]}, "criteria": "alternate"}, {"name": "same", "move": {"t": "ref", "id": "e0"}}]},
-        "grand-composite-bias": {"driver": "GrandCanonical", "T": 3000.0, "mu": 0.1, "cycles": 3, "species": 1, "atoms": {"kind": "gas", "n": 5, "edge": 8.0, "seed": 9}, "calc": {"kind": "soft"}, "table": [{"name": "ee", "move": {"t": "+", "parts": [{"t": "E"}, {"t": "E", "labelmod": "gap"}], "attrs": {"bias_towards_insert": 0.85}}, "criteria": "random:0.6", "probability": 2.0}, {"name": "e3", "move": {"t": "*", "part": {"t": "E"}, "n": 3, "attrs": {"bias_towards_insert": 0.15}}, "criteria": "random:0.6"}, {"name": "d", "move": {"t": "D", "op": {"t": "Ball", "step": 0.4}, "apply_constraints": False, "attrs": {"max_attempts": 4}}}]},
         "montecarlo-bare": {"driver": "MonteCarlo", "cycles": 2, "atoms": gas, "calc": {"kind": "soft"}, "table": [{"name": "p", "move": {"t": "P"}, "criteria": "random:0.5"}]},
         "forcebias": {"driver": "ForceBias", "T": 300.0, "delta": 0.15, "atoms": {"kind": "mixed", "n": 5, "edge": 8.0, "pbc": False, "seed": 6}, "calc": {"kind": "harmonic", "k": 1.0}},
         "adaptive-forcebias": {"driver": "AdaptiveForceBias", "T": 300.0, "delta": 0.2, "atoms": {"kind": "mixed", "n": 5, "edge": 8.0, "pbc": False, "seed": 7}, "calc": {"kind": "committee"}},
